@@ -524,7 +524,8 @@ def c10(tr, acc, case):
             acc.hit("wait_result_eval")
             if r["got_type"] != r["want"]:
                 acc.violation({"mech": "wait_result_wrong_type"}, f"wait {wid} wanted {r['want']} got {r['got_type']}", case)
-            bad = {k: (r["got_fields"].get(k), v) for k, v in r["req"].items() if r["got_fields"].get(k) != v}
+            # (an opaque value that travelled through a JSON snapshot inside an already resolved event comes back as its string form)
+            bad = {k: (r["got_fields"].get(k), v) for k, v in r["req"].items() if r["got_fields"].get(k) != v and str(r["got_fields"].get(k)) != str(v)}
             if bad:
                 acc.violation({"mech": "wait_result_violates_requirements"},
                               f"wait {wid} received event uid={r['got_uid']} with {bad} (got, required)", case)
